@@ -1,6 +1,6 @@
 """C12 — Take/Limit/Chain/Reader/Writer.  Read half: Properties/C12.v (adv equations, reader) + E2 state comparison after every op
 (limit(), get_ref(), into_inner() of every nested adapter through the Inspect trait).  Write half: see p_c11/eng_bufmut (Limit, chain_mut, Writer)."""
-import eng_buf
+import re, eng_buf
 PROP = "C12"
 NEEDS = {"profiles": ["debug", "release"], "modelrun": True}
 RULE = ("as C09; after EVERY operation the whole adapter tree is described through limit()/get_ref()/first_ref()/last_ref() and compared: "
@@ -15,8 +15,9 @@ def _adapter_case(m):
 def translators(ctx, bins): eng_buf.translators(ctx, bins)
 def engines(ctx, bins):
     eng_buf.absorb(ctx, eng_buf.run(ctx, bins), DIRECT, _adapter_case)
-    try:
-        import eng_bufmut
-        eng_bufmut.absorb(ctx, eng_bufmut.run(ctx, bins), r"^c12w-")
-    except ImportError: pass
+    import eng_bufmut
+    r2 = eng_bufmut.run(ctx, bins)
+    # write half: writer / limits / chain order (c12w-*), and any c11 failure on a tree that contains Limit or Chain
+    r2f = dict(r2); r2f["mism"] = [m for m in r2["mism"] if m["kind"].startswith("c12w-") or m["kind"].startswith("model-") or (m["kind"].startswith("c11-") and re.search(r":: M \S*(L\d|C\()", m["detail"]))]
+    eng_bufmut.absorb(ctx, r2f, r"^c12w-|^c11-|^hang")
 def replay(ctx, bins, payload): eng_buf.replay(ctx, bins, payload, DIRECT)
